@@ -70,6 +70,15 @@ impl Property for C02 {
         textspace::families(ctx, true)
     }
     fn run_case(&self, _ctx: &Ctx, case: &Case) -> Verdict {
+        if let Some(text) = textspace::flat_text(case) {
+            // no nesting at all: parsed on a small stack; the step budget and the error checks apply as usual
+            let r = textspace::on_small_stack(move || std::panic::catch_unwind(|| check_total(&text)).map_err(|_| take_panic()));
+            return match r {
+                Ok(Ok(_)) => Verdict::Pass { nontrivial: true, labels: vec!["flat text on a 512 KiB stack"] },
+                Ok(Err(f)) => Verdict::Fail(f),
+                Err(desc) => Verdict::Fail(Failure::new("panic", panic_sig(&desc), desc)),
+            };
+        }
         let Some(text) = textspace::case_text(case) else { return Verdict::Skip("malformed-case") };
         let depth = textspace::scan_depth(text);
         if depth > 256 {
